@@ -219,6 +219,16 @@ def get_gc_info():
     return ret
 
 
+def _displayable(text):
+    # a name that cannot be encoded (a lone surrogate, e.g. from a
+    # surrogate-escaped file name) must not take the whole page down
+    try:
+        text.encode('utf-8')
+    except UnicodeEncodeError:
+        return text.encode('utf-8', 'backslashreplace').decode('utf-8')
+    return text
+
+
 def get_resource_info(_application):
     ret = []
     for key, val in _application.resources.items():
@@ -226,7 +236,7 @@ def get_resource_info(_application):
             trunc_val = '[REDACTED]'
         else:
             trunc_val = _trunc(repr(val))
-        ret.append({'key': key, 'value': trunc_val})
+        ret.append({'key': _displayable(key), 'value': trunc_val})
     return ret
 
 
